@@ -420,7 +420,7 @@ def correspondence(ctx, cfg_comp, label=None):
                     div = j
             cstat["evaluations"] += len(seq)
             cstat["sequences"] += 1
-            if nontriv and len(seq) >= 3:
+            if nontriv and len(seq) >= cfg_comp.get("min_len", 3):
                 h = hashlib.sha1("\n".join(lines).encode()).digest()[:10]
                 if h not in seen:
                     seen.add(h)
@@ -428,7 +428,7 @@ def correspondence(ctx, cfg_comp, label=None):
                 i0 = seq[div]
                 bad.append((lines, div, {"op": ops[i0], "impl": impl[i0] if i0 < len(impl) else "<no-output>",
                                          "model": (mod[i0] if i0 < len(mod) else "<no-output>").split("\t")[0]}))
-            elif len(ctx.cov["samples"]) < 3 and nontriv and 3 <= len(seq) <= 14:
+            elif len(ctx.cov["samples"]) < 3 and nontriv and cfg_comp.get("min_len", 3) <= len(seq) <= 14:
                 ctx.cov["samples"].append({"component": label, "ops": lines,
                                            "observations": [impl[i] for i in seq]})
         if getattr(r1, "hung", False) and bad:
@@ -656,6 +656,8 @@ def main(argv):
     ctx = Ctx(prop, tier, seed)
     try:
         if rp:
+            if cfg.get("replay"):       # property-specific replay (e.g. C01: process-level scenarios)
+                return cfg["replay"](ctx, cfg, rp)
             return replay(ctx, cfg, rp)
         log("== %s (%s, seed %d)" % (prop, tier, seed))
         lean_stage(ctx, cfg)
